@@ -160,9 +160,11 @@ class AddStream(HTMLHandlerBase):
         result = {}
         st = models.Stream.get(directory=data['directory'])
         if st:
-            models.db.session.delete(st)
-            # the row has to be gone before one with the same directory is inserted
-            models.db.session.flush()
+            error = f'Stream directory "{data["directory"]}" already exists'
+            if is_ajax():
+                return jsonify({'error': error}, 400)
+            flask.flash(error, 'error')
+            return self.get(error=error)
         st = models.Stream(**data)
         st.add(commit=True)
         if not is_ajax():
